@@ -9,7 +9,7 @@
    carries an anchor (keys_plain); anchors sit on Scalars (scalar_anchors). *)
 From Coq Require Import List Ascii String ZArith NArith Bool.
 From YP Require Import Outcome PyStr PyVal Doc PathParser Searches MergeConfig Merge Anchors SpecC10
-  AnchorsFuel AnchorsStr AnchorsProofs AnchorsPolicy AnchorsScan AnchorsUnique.
+  AnchorsFuel AnchorsStr AnchorsProofs AnchorsPolicy AnchorsScan AnchorsUnique MergeLeaves.
 Import ListNotations.
 Open Scope string_scope.
 Open Scope list_scope.
@@ -126,6 +126,40 @@ Theorem C10_rename :
                uses nn l' = [].
 Proof. exact resolve_rename. Qed.
 Print Assumptions C10_rename.
+
+(* THE LIFT THROUGH THE MERGE PROPER (C05's recursive core, Merge.merge_rec: everything
+   below the merge target).  The merge creates no anchored Scalar and changes none: every
+   Scalar of the merged document (key, value, element, set member) is a Scalar of one of the
+   two resolved documents -- the same object with its anchor, tag and value -- or the
+   unnamed null _insert_set creates.  For all documents, policies and rule tables. *)
+Theorem C10_merge_keeps_scalars :
+  forall lit cfg r nc l m,
+    merge_rec lit cfg r nc l = Ok m ->
+    forall p, In p (an_all m) -> is_leaf p = true -> In p (an_all l) \/ In p (an_all r) \/ p = mg_null.
+Proof. exact merge_keeps_scalars. Qed.
+Print Assumptions C10_merge_keeps_scalars.
+
+(* left / right / rename: what every Scalar named a reads in the two resolved documents
+   (C10_left / C10_right / C10_rename), every alias of that name reads in the merged one *)
+Theorem C10_lift_reads :
+  forall lit cfg r nc l m a x,
+    (forall p, In p (an_all l) -> is_leaf p = true -> c10_name p = Some a -> p = x) ->
+    (forall p, In p (an_all r) -> is_leaf p = true -> c10_name p = Some a -> p = x) ->
+    merge_rec lit cfg r nc l = Ok m ->
+    forall p, In p (an_all m) -> is_leaf p = true -> c10_name p = Some a -> p = x.
+Proof. exact merge_lift_reads. Qed.
+Print Assumptions C10_lift_reads.
+
+(* unique names: one anchored Scalar per name in the pair => one in the merged document *)
+Theorem C10_lift_unique :
+  forall lit cfg r nc l m,
+    (forall n k a, In n (an_all l ++ an_all r) -> In k (an_all l ++ an_all r) ->
+       is_leaf n = true -> is_leaf k = true -> c10_name n = Some a -> c10_name k = Some a -> n = k) ->
+    merge_rec lit cfg r nc l = Ok m ->
+    forall n k a, In n (an_all m) -> In k (an_all m) -> is_leaf n = true -> is_leaf k = true ->
+      c10_name n = Some a -> c10_name k = Some a -> n = k.
+Proof. exact merge_lift_unique. Qed.
+Print Assumptions C10_lift_unique.
 
 (* the replacement policies on documents with plain keys are the declarative
    substitution of SpecC10 *)
@@ -246,6 +280,19 @@ Proof.
   split; [intros n m a Hn Hm Nn Nm; in_cases Hn; in_cases Hm; try reflexivity; vm_compute in Nn, Nm; congruence|].
   split; [intros n m Hn Hm E; in_cases Hn; in_cases Hm; try reflexivity; vm_compute in E; discriminate|].
   repeat split; vm_compute; reflexivity.
+Qed.
+
+(* the hypotheses of C10_lift_reads hold of the pair the 'left' policy produces from ex_l / ex_r *)
+Example C10_lift_example :
+  let r' := NMap (mkinfo 3 None true None)
+                 [(ky "c", ex_lx); (ky "d", NSeq (mkinfo 4 None true None) [ex_lx]); (ky "e", ex_ry)] in
+  (forall p, In p (an_all ex_l) -> is_leaf p = true -> c10_name p = Some "x" -> p = ex_lx) /\
+  (forall p, In p (an_all r') -> is_leaf p = true -> c10_name p = Some "x" -> p = ex_lx) /\
+  exists m, merge_rec (fun _ => Ok LFail) (ex_cfg "left") r' (mkcoord 3 None None) ex_l = Ok m.
+Proof.
+  split; [intros p Hp _ Np; in_cases Hp; try reflexivity; vm_compute in Np; discriminate|].
+  split; [intros p Hp _ Np; in_cases Hp; try reflexivity; vm_compute in Np; discriminate|].
+  eexists. vm_compute. reflexivity.
 Qed.
 
 (* Scope: the theorems above assume anchors on Scalars (scalar_anchors).  Beyond it the code
